@@ -16,8 +16,8 @@ import (
 )
 
 var (
-	c12Domains  = []string{"t.example.org", "example.com", "m.x.io", "l0.tunnel.example.net", "vpn.corp.example"}
-	c12TunnelQ  = []uint16{10, 0xFFA0, mdns.TypeTXT, mdns.TypeSRV, mdns.TypeMX, mdns.TypeCNAME, mdns.TypeAAAA, mdns.TypeA}
+	c12Domains = []string{"t.example.org", "example.com", "m.x.io", "l0.tunnel.example.net", "vpn.corp.example"}
+	c12TunnelQ = []uint16{10, 0xFFA0, mdns.TypeTXT, mdns.TypeSRV, mdns.TypeMX, mdns.TypeCNAME, mdns.TypeAAAA, mdns.TypeA}
 	// query types a session can be run over in this tree for any payload length (SRV answers with >63 characters and
 	// A/AAAA answers whose length is no multiple of the address size cannot be packed: C10's subject, not this one's)
 	c12SessionQ = []uint16{10, 0xFFA0, mdns.TypeTXT, mdns.TypeMX, mdns.TypeCNAME}
